@@ -684,6 +684,11 @@ def doctored_selftest(ctx, model, builder):
         if da is None or db is None:
             raise MachineryFailure("self-test vectors could not be generated")
         ident = ("NUNAVUT_SUPPORT_LANGUAGE_OPTION_" + key.upper()) if lang == "c" else ("options::" + key + " ")
+        base = tlc.validate_traces(ctx, "OptionGuardTrace", [record(0, lang, a, b, builder.build(lang, a, da, db), model.keys[lang])])
+        if str(base.get(0, "")).startswith("guard"):
+            res[(lang, "one")] = res[(lang, "all")] = None  # the unmodified pair already violates the property: nothing to demonstrate on
+            continue
+        ctx.cov["traces_validated_against_impl"] -= 1 - len(base)
         for mode in ("one", "all"):
             doc = builder.root / "doctored" / (lang + mode)
             shutil.copytree(da, doc, symlinks=True)
@@ -803,11 +808,20 @@ def run(ctx):
                     "defs": obs["defs"], "diagnostic": obs["stderr_head"][:300]})
 
     # 4. binding self-tests: corrupted records must be rejected with the right clause
-    acc = [r for r in camp.recs if r["id"] not in rej]
+    acc = [r for r in camp.recs if not str(rej.get(r["id"], "")).startswith("guard")]     # accepted by the P-layer
     diff = next((r for r in acc if r["rc"] != 0 and r["msg"] and len(r["headers"]) > 1 and len(r["defs"]) > 1), None)
     same = next((r for r in acc if r["rc"] == 0 and r["lang"] == "c"), None)
     if diff is None or same is None:
-        raise MachineryFailure("no accepted record to run the binding self-test on")
+        if not ctx.violations:
+            raise MachineryFailure("no accepted record to run the binding self-test on")
+        # a tree on which no pair behaves: fall back to records built from the model's own prediction
+        d = model.default("c")
+        o = {"rc": 1, "msg": True, "headers": ["x", "y"], "fired_headers": ["x", "y"], "fired": ["target_endianness"], "fired_known": True,
+             "defs": {}, "asrt": {}}
+        if diff is None:
+            diff = record(0, "c", d, dict(d, target_endianness=enc("little")), o, model.keys["c"])
+            diff["defs"] = {"target_endianness": [0, 0], "cast_format": [0, 0]}
+        same = same or record(0, "c", d, d, dict(o, rc=0, msg=False, fired_headers=[], fired=[]), model.keys["c"])
     tests = [("rc of a mismatching pair set to 0", dict(diff, rc=0), "guard.iff.mismatch_accepted"),
              ("mismatch text of a mismatching pair removed", dict(diff, msg=False), "guard.message.missing"),
              ("one type header made silent", dict(diff, fired_headers=diff["fired_headers"][1:]), "guard.message.header_silent"),
@@ -821,6 +835,9 @@ def run(ctx):
         ctx.selftest("T-layer: %s -> %s" % (name, want), r2.get(i) == want)
     dres = doctored_selftest(ctx, model, builder)
     for lang in ("c", "cpp"):
+        if dres[(lang, "one")] is None and ctx.violations:
+            ctx.not_exercised("end-to-end self-test for %s skipped: the unmodified pair already violates the property" % lang)
+            continue
         ctx.selftest("end-to-end: assertion removed from one generated %s type header -> header_silent" % lang,
                      dres[(lang, "one")] == "guard.message.header_silent")
         ctx.selftest("end-to-end: assertion removed from every generated %s type header -> mismatch_accepted" % lang,
